@@ -992,6 +992,7 @@ pub fn c02(tier: &str) -> (Vec<Space>, Focus) {
     v.extend(mid_spaces(tier, true, true, None));
     v.extend(antichain_spaces(tier, AntiOpts { futures: true, streams: true, limits: vec![None, Some(2)], limit_below_width: false, fail_antichain: false }));
     v.extend(tokio_task_spaces(tier, TaskOpts { futures: true, streams: true, fail_single: false, limits: vec![] }));
+    v.extend(wide_spaces(tier, true, false));
     v.extend(large_irregular_spaces(tier, true, true, false));
     v.extend(all_methods_spaces(tier, true, true));
     v.extend(n5_space(tier, &[]));
